@@ -98,11 +98,13 @@ CHECKS = {
         design="4/C15"),
     "C10": dict(
         text="Coq theorems C10_chunking (for EVERY partition of a byte string the incremental line buffer hands out exactly the lines of the whole string with exact offsets; its assertion never fires), "
-             "C10_index_chunk_invariant and C10_index_bytes_chunk_invariant (the index and its serialized bytes depend only on the concatenation). The index creator, the .symindex layout and the lookup "
+             "C10_index_chunk_invariant and C10_index_bytes_chunk_invariant (the index and its serialized bytes depend only on the concatenation), C10_parse_serialize / C10_serialize_parse_serialize "
+             "(reading a serialized index back gives the same tables, for every index whose entries fit their fields). The index creator, the .symindex layout and the lookup "
              "through an index are modelled; a straightforward reading of the .sym text (Spec/BreakpadText.v) is the specification of lookups. Tied to samply-symbols by generated .sym files fed in many partitions "
              "(1-byte chunks, cuts inside line endings, random), parse/serialize round trip, stored-index vs self-indexed lookups, and lookups compared in Coq with the text specification, the model and the model's index bytes. "
              "F-C10 (INLINE_ORIGIN inside a FUNC block) was found, fixed and stays in corpus/C10.",
-        note="Proved: the chunking clauses. Checked by the correspondence run but not yet proved as theorems: parse(serialize i) = i and 'lookup through the index = reading of the text' (both are compared on every generated file). "
+        note="Proved: the chunking clauses and the parse/serialize round trip (table part; the model of parse_symindex_file is tied by reading the implementation's index bytes back). Checked by the correspondence run but not proved: "
+             "'lookup through the index = reading of the text' (compared on every generated file). "
              "Trusted: the Coq transcription of the nom tokenizers; stable-sort model of sort_unstable (files with duplicate addresses/indices are not compared).",
         technique="Coq proof (refinement of a byte-at-a-time specification by the slice-based line buffer, induction over chunks and fuel) + differential correspondence run with a text-level specification evaluated by vm_compute",
         design="4/C10"),
